@@ -13,7 +13,7 @@ PENDING = {}
 
 
 def claim(pid, text, note, technique=TECH_XH, design=None):
-    CLAIMED[pid] = dict(text=text, note=note, technique=technique, design=design or ("DESIGN.md section " + pid))
+    CLAIMED[pid] = dict(text=text, note=note, technique=technique, design=design or ("DESIGN.md section 2 (as built) and Appendix A, " + pid))
 
 
 def load_table():
